@@ -19,7 +19,7 @@ from bibtexparser import model as M
 from bibtexparser.splitter import Splitter
 from bibtexparser.middlewares.enclosing import RemoveEnclosingMiddleware
 
-KS = "aAb"
+KS = "aAb-"
 SVALS = ["{v1}", "\"v2\" # x", "w3"]
 SHAPES = ("bare", "braced", "quoted", "concat", "number")
 
@@ -29,19 +29,22 @@ def drv(text, snames, fields):
     lib0 = RemoveEnclosingMiddleware(True).transform(Splitter(text).split())
     # oracle: which field resolves to which string (first definition wins)
     exp = []
-    for fkey, shape, name in fields:
-        hit = -1
-        if shape == "bare":
-            i = 0
-            for s in snames:
-                if hit < 0 and s == name:
-                    hit = i
-                i += 1
-        exp.append(hit)
+    for entry_fields in fields:
+        row = []
+        for fkey, shape, name in entry_fields:
+            hit = -1
+            if shape == "bare":
+                i = 0
+                for s in snames:
+                    if hit < 0 and s == name:
+                        hit = i
+                    i += 1
+            row.append(hit)
+        exp.append(row)
     return lib, lib0, exp
 
 
-def build(eng, n_before, n_after, shapes, kl):
+def build(eng, n_before, n_after, shapes, kl, second=None):
     cs = []
 
     def lit(s):
@@ -65,11 +68,15 @@ def build(eng, n_before, n_after, shapes, kl):
 
     for i in range(n_before):
         sdef(i)
-    lit("@x{key")
-    fields = []
-    own = []
-    for j, sh in enumerate(shapes):
-        lit(f", f{j} = ")
+    all_fields = []
+    all_own = []
+    entry_specs = [("key", "f", shapes)] + ([("kez", "g", second)] if second else [])
+    for ekey, fpre, shapes_ in entry_specs:
+      lit("@x{" + ekey)
+      fields = []
+      own = []
+      for j, sh in enumerate(shapes_):
+        lit(f", {fpre}{j} = ")
         if sh == "bare":
             nm = hole(); own.append(nm)
         elif sh == "braced":
@@ -80,9 +87,12 @@ def build(eng, n_before, n_after, shapes, kl):
             nm = hole(); lit(" # "); nm2 = hole(); own.append(mk(chars(nm) + tuple(" # ") + chars(nm2)))
         else:
             lit("12"); nm = "12"; own.append("12")
-        fields.append((f"f{j}", sh, nm))
-    lit("}\n")
-    order.append(("e",))
+        fields.append((f"{fpre}{j}", sh, nm))
+      lit("}\n")
+      order.append(("e", len(all_fields)))
+      all_fields.append(fields)
+      all_own.append(own)
+    fields, own = all_fields, all_own
     for i in range(n_after):
         sdef(n_before + i)
     return mk(cs), snames, fields, own, order
@@ -109,10 +119,11 @@ def verdict(lib, lib0, exp, snames, fields, own, order, E):
             first_of[o[1]] = (b, sb)
         else:
             e = b
-            if not isinstance(e, M.Entry) or len(e.fields) != len(fields):
+            ei = o[1]
+            if not isinstance(e, M.Entry) or len(e.fields) != len(fields[ei]):
                 return [False]
             resolved = []
-            for f, (fkey, shape, name), hit, mine in zip(e.fields, fields, exp, own):
+            for f, (fkey, shape, name), hit, mine in zip(e.fields, fields[ei], exp[ei], own[ei]):
                 conds.append(E(f.key, fkey))
                 if hit >= 0:
                     blk, sb = first_of_lookup(lib, order, hit)
@@ -144,10 +155,10 @@ def native(text, snames, fields, own, order):
     return all(bool(c) for c in conds), exp, [(f.key, f.value) for b in lib.blocks if isinstance(b, M.Entry) for f in b.fields]
 
 
-def task(n_before, n_after, shapes, kl, label):
+def task(n_before, n_after, shapes, kl, label, second=None):
     eng = Engine()
     rec = Recorder(eng)
-    text, snames, fields, own, order = build(eng, n_before, n_after, shapes, kl)
+    text, snames, fields, own, order = build(eng, n_before, n_after, shapes, kl, second)
     E = eng.I.models.eq_simple
     worlds = eng.run(drv, [text, snames, fields])
 
@@ -155,7 +166,7 @@ def task(n_before, n_after, shapes, kl, label):
         mv = lambda x: eng.model_value(m, x)
         t = eng.model_str(m, text)
         try:
-            ok, exp, got = native(t, mv(snames), [tuple(mv(list(f))) for f in fields], mv(own), order)
+            ok, exp, got = native(t, mv(snames), [[tuple(mv(list(f))) for f in ef] for ef in fields], mv(own), order)
         except Exception as e:  # noqa
             return {"input": t, "observed": f"raised {type(e).__name__}: {e}", "expected": "library"}
         if ok:
@@ -169,11 +180,13 @@ def task(n_before, n_after, shapes, kl, label):
         lib, lib0, exp = W.result
         conds = verdict(lib, lib0, exp, snames, fields, own, order, E)
         rec.require(W, b_not(b_all(conds)), "resolution", rp)
-        if any(h >= 0 for h in exp):
+        flat = [h for row in exp for h in row]
+        flatf = [f for ef in fields for f in ef]
+        if any(h >= 0 for h in flat):
             rec.witness("reference-resolved", W)
-        if any(h < 0 and f[1] == "bare" for h, f in zip(exp, fields)):
+        if any(h < 0 and f[1] == "bare" for h, f in zip(flat, flatf)):
             rec.witness("undefined-name-kept", W)
-        if len(rec.samples) < 1 and any(h >= 0 for h in exp):
+        if len(rec.samples) < 1 and any(h >= 0 for h in flat):
             ok, m = eng.query(W, True)
             if ok:
                 rec.samples.append({"document": eng.model_str(m, text), "resolution": exp})
@@ -183,8 +196,8 @@ def task(n_before, n_after, shapes, kl, label):
 
 def main():
     chk = Check("C11", __doc__)
-    chk.bounds = {"names": "every @string key / referenced identifier: 1 char (all templates) and 2 chars (single-field templates) over {a,A,b}",
-                  "templates": "0..2 definitions before x 0..1 after x 1..2 fields x value shapes {bare, braced, quoted, concat, number}"}
+    chk.bounds = {"names": "every @string key / referenced identifier: 1 char (all templates) and 2 chars (single-field templates) over {a,A,b,-} (so non-identifier-like names such as 'a-' occur)",
+                  "templates": "0..2 definitions before x 0..1 after x 1..2 fields x value shapes {bare, braced, quoted, concat, number}; plus two-entry documents (metadata is per entry)"}
     chk.assumptions = ["@string values are the three fixed literals {v1}, \"v2\" # x, w3", "names longer than 2 characters are outside the claim"]
     chk.expected_vacuity = ["reference-resolved", "undefined-name-kept"]
     for nb, na in itertools.product((0, 1, 2), (0, 1)):
@@ -196,6 +209,12 @@ def main():
                 chk.add_task(name + "-k1", task, n_before=nb, n_after=na, shapes=shapes, kl=1, label=name)
                 if nf == 1 or chk.tier == "thorough":
                     chk.add_task(name + "-k2", task, n_before=nb, n_after=na, shapes=shapes, kl=2, label=name)
+    # two entries: the recorded resolved keys are per entry
+    for nb, na in ((1, 0), (0, 1), (2, 0)):
+        for shapes in (("bare",), ("bare", "bare"), ("braced",)):
+            for second in (("bare",), ("braced",), ("number", "bare")):
+                name = f"two-b{nb}a{na}-" + "+".join(shapes) + "--" + "+".join(second)
+                chk.add_task(name, task, n_before=nb, n_after=na, shapes=shapes, kl=1, label=name, second=second)
     chk.run()
 
 
